@@ -470,7 +470,8 @@ def check_main(a):
             print("HARNESS-ERROR (%d):" % len(harness))
             for h in harness[:6]:
                 print("  " + str(h).replace("\n", "\n  "))
-            return 2
+            # a reproduced violation outranks a harness problem met elsewhere in the batch
+            return 1 if n_unlisted else 2
         if ev == 0:
             print("HARNESS-ERROR: nothing was executed")
             return 2
